@@ -88,7 +88,7 @@ def main(tier, replay):
             return None
         hyd.selftest(ck, "C07", good, props, mutate)
         if min(br.values()) == 0:
-            raise common.MachineryError("vacuity: a branch of the curve was never sampled: %r" % br)
+            ck.vacuity("vacuity: a branch of the curve was never sampled: %r" % br)
     hyd.finish_cov(ck, good, "sweep traces (reservoir head pattern: ~75 pressures from Pmin-12 m to Preq+40 m, +-0.2..24 mm around the "
                    "four band edges) over Pmin, span, exponent from {1/2,3/10,2/5,11/20,3/4,1}, global vs per-junction parameters, "
                    "requested demand incl. 0; plus every PDD row of random networks; per-row five-branch law and all ordered pairs "
